@@ -121,6 +121,8 @@ Combine ==
 Next == \/ Induce \/ Deal \/ Combine
         \/ \E S \in Subsets(pol) : Reconstruct(S) \/ Convert(S)
 Spec == Init /\ [][Next]_vars
+\* the C05 configurations stop at the dealt states (the verification invariants are state predicates there)
+Dealing == Induce \/ Deal
 
 \* ============================================================ C02 invariants
 \* exactly the qualified sets span the target
